@@ -1,6 +1,7 @@
 package cont
 
 import (
+	"context"
 	"errors"
 
 	"github.com/junioryono/godi/v4"
@@ -43,12 +44,14 @@ func isAncestorOrSelf(a, k int) bool {
 }
 
 type disp struct {
-	w      *kit.World
-	m      *kit.Model
-	nodes  []node
-	closed []bool
-	nn     int
-	faulty bool
+	w       *kit.World
+	m       *kit.Model
+	nodes   []node
+	closed  []bool
+	nn      int
+	faulty  bool
+	panicky bool // some Close method panics: only the order of what did get closed is judged
+	blown   bool // a container Close call panicked
 }
 
 func disposable(in *kit.Inst) bool {
@@ -93,8 +96,22 @@ func (d *disp) closeNode(k int) {
 	}
 	before := totalCloses()
 	kit.ActiveCloses = append(kit.ActiveCloses, nodeName(k))
-	err := d.nodes[k].p.Close()
+	var err error
+	panicked, _ := guard(func() { err = d.nodes[k].p.Close() })
 	kit.ActiveCloses = kit.ActiveCloses[:len(kit.ActiveCloses)-1]
+	if d.panicky {
+		// a disposable's Close panicked somewhere below: what a Close call returns
+		// or completes is not judged here, only the order of the closes that happened
+		if panicked {
+			d.blown = true
+		}
+		return
+	}
+	vrt.Assert(!panicked, "C12.close_panicked", "Close of", nodeName(k), "panicked although no Close method panics")
+	if panicked {
+		d.blown = true
+		return
+	}
 	var de *godi.DisposalError
 	isDisp := errors.As(err, &de)
 	if first {
@@ -107,6 +124,26 @@ func (d *disp) closeNode(k int) {
 	} else {
 		vrt.Assert(err == nil, "C12.second_close_error", "repeated Close returned an error")
 		vrt.Assert(totalCloses() == before, "C12.second_close_closes", "repeated Close closed something again", nodeName(k), before, totalCloses())
+	}
+	// whatever it returned, the Close call is complete: every disposable owned
+	// in the subtree has been closed (errors are collected, not a reason to stop) ...
+	for _, in := range kit.Log {
+		if !disposable(in) {
+			continue
+		}
+		o := d.owner(in)
+		if o == -2 || (k != 0 && !(o >= 0 && isAncestorOrSelf(k, o))) {
+			continue
+		}
+		vrt.Assert(in.Closed >= 1, "C12.close_incomplete", "Close of", nodeName(k), "returned (", err, ") but an instance of slot", in.Slot, "owned by", o, "is still open")
+	}
+	// ... and every scope of the subtree is closed
+	for x := 1; x < d.nn && x < len(d.nodes); x++ {
+		if k != 0 && !isAncestorOrSelf(k, x) {
+			continue
+		}
+		_, gerr := d.nodes[x].p.Get(kit.TypeS[0])
+		vrt.Assert(isDisposed(gerr), "C13.subtree_open_after_close", "Close of", nodeName(k), "returned but scope", nodeName(x), "still answers:", gerr)
 	}
 	// closing a node closes its whole subtree
 	for x := 0; x < d.nn; x++ {
@@ -132,7 +169,7 @@ func totalCloses() int {
 // checkClosed: C10 / C11 at the end of the history (everything closed).
 func (d *disp) checkClosed() {
 	for _, in := range kit.Log {
-		if !disposable(in) {
+		if !disposable(in) || d.panicky {
 			continue
 		}
 		vrt.Assert(in.Closed >= 1, "C10.leaked", "instance of slot", in.Slot, "aux", in.Aux, "was never closed")
@@ -193,6 +230,46 @@ func (d *disp) checkClosed() {
 	}
 }
 
+// checkDescendantsFirst: whenever an instance owned by a scope has been closed,
+// every instance that existed at that moment in a strict descendant scope had
+// been closed before it (also when some Close call ended in a panic or an error).
+func (d *disp) checkDescendantsFirst() {
+	for _, b := range kit.Log {
+		if !disposable(b) || b.Closed < 1 {
+			continue
+		}
+		ob := d.owner(b)
+		if ob < 0 {
+			continue
+		}
+		for _, a := range kit.Log {
+			if !disposable(a) || a == b {
+				continue
+			}
+			oa := d.owner(a)
+			if oa < 1 || oa == ob || !isAncestorOrSelf(ob, oa) || a.Seq > b.CloseSeq[0] {
+				continue
+			}
+			// a scope whose own Close was cut short by a panicking disposable (its
+			// own or one further down: the panic travels up through the Close calls
+			// in progress) can never finish closing: what it still holds is a leak
+			// caused by that panic, not an ordering matter
+			cut := false
+			for y := oa; y >= 0 && y != ob; y = treeParent[y] {
+				for _, c := range kit.Log {
+					if oc := d.owner(c); !c.Aux && c.Closed >= 1 && kit.ClosePanicMask&(1<<c.Slot) != 0 && oc >= 1 && isAncestorOrSelf(y, oc) && c.CloseSeq[0] < b.CloseSeq[0] {
+						cut = true
+					}
+				}
+			}
+			if cut {
+				continue
+			}
+			vrt.Assert(a.Closed >= 1 && a.CloseSeq[0] < b.CloseSeq[0], "C11.ancestor_before_descendant", "instance of slot", b.Slot, "owned by", nodeName(ob), "was closed while an instance of slot", a.Slot, "in descendant scope", nodeName(oa), "was still open")
+		}
+	}
+}
+
 func hasSuffix(s, suf string) bool {
 	return len(s) >= len(suf) && s[len(s)-len(suf):] == suf
 }
@@ -206,17 +283,33 @@ func H_Dispose() {
 	L := vrt.Param("L", 1)
 	Lc := vrt.Param("closes", 2)
 	lifes, forms, variants := disposeProfile()
+	// tree 0: provider <- s1 <- s2, provider <- s3; tree 1: s1 has two children (s2, s3)
+	if vrt.Param("tree", 0) == 1 {
+		treeParent = []int{-1, 0, 1, 1}
+	} else {
+		treeParent = []int{-1, 0, 1, 0}
+	}
 	w := kit.PickWorld(n, lifes, forms, variants)
 	vrt.Assume(sane(w))
 	vrt.Assume(!w.Duplicate())
 	vrt.Assume(buildable(w))
 	knownBuildDefects(w)
-	if vrt.Param("faults", 0) == 1 {
+	switch vrt.Param("faults", 0) {
+	case 1:
 		kit.FaultSlot = vrt.Pick("fslot", -1, n-1)
 		if kit.FaultSlot >= 0 {
 			kit.FaultNth = vrt.Pick("fnth", 1, vrt.Param("fnth_max", 2))
 			kit.FaultKind = vrt.Pick("fkind", 1, 3)
 		}
+	case 2: // the context given to BuildWithContext is cancelled from inside a constructor
+		kit.FaultSlot = vrt.Pick("fslot", 0, n-1)
+		kit.FaultNth = 1
+		kit.FaultKind = kit.FaultCancel
+	}
+	panicky := false
+	if vrt.Param("closepanic", 0) == 1 {
+		kit.ClosePanicMask = vrt.Pick("cpanic", 1, 1<<n-1)
+		panicky = true
 	}
 	if vrt.Param("errmask", 0) == 1 {
 		kit.CloseErrMask = vrt.Pick("cerr", 0, 1<<n-1)
@@ -227,7 +320,23 @@ func H_Dispose() {
 	c := godi.NewCollection()
 	errs := w.Register(c)
 	vrt.Assume(!addErrs(errs, n))
-	p, err := c.Build()
+	var p godi.Provider
+	var err error
+	if kit.FaultKind == kit.FaultCancel {
+		ctx, cancel := context.WithCancel(context.Background())
+		kit.OnFault = cancel
+		p, err = c.BuildWithContext(ctx)
+		kit.OnFault = nil
+		kit.FaultSlot = -1 // only the Build is disturbed
+		if err == nil {
+			vrt.Cover("cancel_ignored")
+		} else {
+			vrt.Cover("build_cancelled")
+		}
+		cancel()
+	} else {
+		p, err = c.Build()
+	}
 	if err != nil {
 		vrt.Cover("build_failed")
 		// a failed Build leaves nothing behind: every disposable it created is closed
@@ -243,7 +352,7 @@ func H_Dispose() {
 	if !faulty {
 		m.Build()
 	}
-	d := &disp{w: w, m: m, nodes: []node{{p}}, closed: make([]bool, nn), nn: nn, faulty: faulty}
+	d := &disp{w: w, m: m, nodes: []node{{p}}, closed: make([]bool, nn), nn: nn, faulty: faulty, panicky: panicky}
 	for k := 1; k < nn; k++ {
 		sc, err := d.nodes[treeParent[k]].p.CreateScope(nil)
 		if err != nil {
@@ -308,4 +417,7 @@ func H_Dispose() {
 	d.closeNode(0)
 	vrt.Cover("all_closed")
 	d.checkClosed()
+	if !d.faulty {
+		d.checkDescendantsFirst()
+	}
 }
